@@ -14,7 +14,8 @@ SEPS = [";", " ; ", ";\n", " ;\n\n", "; -- c ; c\n", ";/* ; */", "\n;\t", " ;  "
 FINALS = ["", ";", " ; \n", ";\n-- end;\n", "\n"]
 QUOTED = ["SELECT ';' FROM t", "SELECT `a;b` FROM t", "SELECT a /* ; */ FROM t", "SELECT a -- ;\n FROM t", "SELECT f(';', 1) FROM t # ;\n",
           "SELECT (';') , \";\" FROM `t;1`", "INSERT INTO t VALUES (';', ';;')", "UPDATE t SET a = ';' WHERE b = \"x;y\"",
-          "DELETE FROM t WHERE a IN (';', ');')", "SET a = ';'", "SELECT 'it''s;' FROM t", "SELECT '\\';' FROM t"]
+          "DELETE FROM t WHERE a IN (';', ');')", "SET a = ';'", "SELECT 'it''s;' FROM t", "SELECT '\\';' FROM t",
+          "SELECT \"a\\\"; SELECT \\\"b\" FROM t", "SELECT \"x\"\";\" FROM t", "SELECT 'a\\\\' AS `;`, ';' FROM t"]
 
 
 CONTEXT = ["WITH w AS (SELECT a FROM t) SELECT * FROM w", "WITH w1 AS (SELECT 1), w2 AS (SELECT b FROM w1) SELECT * FROM w2 JOIN w1 ON w1.a = w2.b",
@@ -75,6 +76,13 @@ def build(run):
         for s, dm in ok:
             k = re.match(r"(AST\w+)\{", dm).group(1)
             kinds.setdefault((d, k), []).append((s, dm))
+    pre_fails = []
+    for d in dialects:
+        have = {s for s, _ in pool[d]}
+        for s in QUOTED:
+            if s not in have:
+                pre_fails.append({"kind": "input", "stream": "quoted separators", "text": s, "dialect": d, "request": sqlgen.parse_request("statements", d, s),
+                                  "oracle_verdict": "a text whose only ';' are inside quotes, names or comments does not parse to exactly one statement"})
     scripts = []
     # all ordered pairs of statement kinds
     for d in dialects:
@@ -106,13 +114,14 @@ def build(run):
         items = [run.rng.choice(pool[d]) for _ in range(n)]
         scripts.append((d, [x[0] for x in items], [x[1] for x in items], [run.rng.choice(SEPS) for _ in range(n - 1)], run.rng.choice(FINALS)))
     nk = {d: len([1 for (dd, k) in kinds if dd == d]) for d in dialects}
-    return scripts, nk
+    return scripts, nk, pre_fails
 
 
 def run(run):
     proofs_ok = core.proof_stage(run, "Props/C10.v")
-    scripts, nk = build(run)
+    scripts, nk, pre_fails = build(run)
     dis, fails = check_scripts(run, "scripts", scripts)
+    fails = pre_fails + fails
     run.cov["streams"]["scripts"]["statement_kinds_per_dialect"] = nk
     run.cov["rule"] = ("statements that parse on their own (generator of harness/sqlgen.py + statements with ';' inside strings, names, comments, brackets) are "
                        "joined with every separator layout, with / without final separator: all ordered pairs of statement kinds, then random scripts of 1-6 "
